@@ -6,7 +6,8 @@ use crate::model::ed::{self, Pt};
 use crate::model::nat::{hex, U};
 use crate::model::ris;
 use crate::model::zl::{l, Zl};
-use crate::props::c03::{pool, Known};
+use crate::props::c03::{self, pool, Known};
+use crate::props::c01;
 use crate::real;
 use curve25519_dalek::edwards::EdwardsPoint;
 use curve25519_dalek::montgomery::MontgomeryPoint;
@@ -160,6 +161,36 @@ fn cmp(ctx: &Ctx, name: &str, got: Result<EdwardsPoint, String>, want: &Pt, case
                 let mut c = case.clone();
                 c["entry"] = json!(name);
                 ctx.violation(name, &format!("got {} want {}", hex(&enc), hex(&want.compress())), c);
+            } else {
+                // the returned point must also be a sound *internal* state: consistent extended coordinates
+                // (compress never reads T) within the representation bounds of the operations applied next
+                let follow = guarded(|| -> Result<(), String> {
+                    c03::check_point(&c01::spec(), &p, want, &None, false)?;
+                    let b = curve25519_dalek::constants::ED25519_BASEPOINT_POINT;
+                    if (&p + &b).compress().0 != want.add(&ed::basepoint()).compress() {
+                        return Err("result + B is wrong".into());
+                    }
+                    if (&b - &p).compress().0 != ed::basepoint().sub(want).compress() {
+                        return Err("B - result is wrong".into());
+                    }
+                    if p.mul_by_cofactor().compress().0 != want.dbl().dbl().dbl().compress() {
+                        return Err("[8]result is wrong".into());
+                    }
+                    if (-&p).compress().0 != want.neg().compress() {
+                        return Err("-result is wrong".into());
+                    }
+                    Ok(())
+                });
+                let msg = match follow {
+                    Ok(Ok(())) => None,
+                    Ok(Err(e)) => Some(e),
+                    Err(e) => Some(format!("panic: {}", e)),
+                };
+                if let Some(e) = msg {
+                    let mut c = case.clone();
+                    c["entry"] = json!(name);
+                    ctx.violation(name, &format!("result encodes correctly but is not usable: {}", e), c);
+                }
             }
         }
         Err(e) => {
